@@ -234,10 +234,10 @@ def _map_to_station_ids(
     :return: the price data organized by StationId
     """
     updated = {}  # refactor using immutables.Map()?
-    for k in this_update.keys():
+    for k in sorted(this_update.keys()):
         if k in sim.stations:
             # k is a StationId; leave as is
-            updated.update({k: this_update[k]})
+            updated.update({k: updated.get(k, immutables.Map()).update(this_update[k])})
         else:
             # k may be a geoid
             try:
@@ -255,7 +255,7 @@ def _map_to_station_ids(
                     station_id
                     for search_geoid in search_geoids
                     if sim.s_search.get(search_geoid)
-                    for station_id in sim.s_search[search_geoid]
+                    for station_id in sorted(sim.s_search[search_geoid])
                     # a region finer than the search resolution only covers the stations inside it
                     if res <= sim.sim_h3_search_resolution
                     or h3.h3_to_parent(sim.stations[station_id].geoid, res) == k
@@ -263,7 +263,8 @@ def _map_to_station_ids(
 
                 # all of these station ids should get entries managers the provided geoid
                 for station_id in station_ids:
-                    updated.update({station_id: this_update[k]})
+                    merged = updated.get(station_id, immutables.Map()).update(this_update[k])
+                    updated.update({station_id: merged})
 
             except ValueError as e:
                 # todo: handle failure here
